@@ -28,7 +28,7 @@ ASSUMPTIONS = [
 ]
 BUDGET = {"quick": 80, "thorough": 800}
 ROUNDS = {"thorough": 8}
-FLOORS = {"after_tree_change_checks": {"quick": 100, "thorough": 1000}, "batched_heights": {"quick": 30, "thorough": 300}, "quadratic_form_checks": {"quick": 300, "thorough": 3000}, "quadrature_checks": {"quick": 100, "thorough": 800},
+FLOORS = {"batched_tree_checks": {"quick": 15, "thorough": 150}, "after_tree_change_checks": {"quick": 100, "thorough": 1000}, "batched_heights": {"quick": 30, "thorough": 300}, "quadratic_form_checks": {"quick": 300, "thorough": 3000}, "quadrature_checks": {"quick": 100, "thorough": 800},
           "statistics_checks": {"quick": 250, "thorough": 2500}, "variants": 4}
 
 KINDS = ["gmrf-quadratic", "gmrf-quadratic", "gmrf-integrated", "coalescent-integrated", "skyride-statistics", "skygrid-statistics", "skygrid-statistics"]
@@ -147,6 +147,45 @@ def run_case(case):
                     break
             if var.endswith("no-rescale") and not V and dim >= 2 and np.abs(Q2 - Q).max() == 0:
                 V.append(tt.viol("C20:gmrf:precision-matrix-ignores-tree-change:" + var, "the published precision matrix did not change when all internal heights were stretched by %.3g" % f, **detail))
+        if var.startswith("time-aware") and not V and "tree.heights" in dic and B in (0, 2):
+            # a batch of two trees with different root heights (field and precision as they are): every member against the published
+            # precision matrix of that member, and against the same tree evaluated on its own
+            h0 = dic["tree.heights"].tensor.detach().clone()
+            f2 = float(rng.uniform(1.3, 2.5))
+            trees = torch.stack([h0, h0 * f2])
+            dic["tree.heights"].tensor = trees
+            try:
+                val3 = tt.as_np(g(), "C20:not-a-tensor:gmrf", "GMRF()")
+                Q3 = tt.as_np(g.precision_matrix(), "C20:not-a-tensor:precision_matrix", "precision_matrix()")
+                declined = False
+            except Exception as e:
+                from ..worker import _blame
+
+                if _blame(e) is None:
+                    raise
+                declined = True
+                C["batched_trees_declined"] = 1  # an unsupported shape that fails with an error is accepted
+            if not declined:
+                C["batched_tree_checks"] = 1
+                if val3.reshape(-1).shape[0] != 2 or Q3.shape != (2, dim, dim):
+                    V.append(tt.viol("C20:gmrf:shape:batched-trees:" + var, "two trees: GMRF() has shape %s, precision_matrix() %s" % (val3.shape, Q3.shape), **detail))
+                else:
+                    for r in range(2):
+                        xr = x if not B else x[r]
+                        tr = float(tau[0]) if not B else float(tau[r, 0])
+                        quad = 0.5 * (dim - 1) * math.log(tr) - 0.5 * float(xr @ Q3[r] @ xr) - 0.5 * (dim - 1) * math.log(2 * math.pi)
+                        got = float(val3.reshape(-1)[r])
+                        C["quadratic_form_checks"] += 1
+                        if abs(got - quad) > 1e-9 * max(1.0, abs(quad)):
+                            V.append(tt.viol("C20:gmrf:quadratic-form:batched-trees:" + var, "batch of two trees, member %d: GMRF() = %.12g but the quadratic form of the published precision matrix of that member gives %.12g (dim %d)" % (r, got, quad, dim), row=r, **detail))
+                            break
+                    if not V and not B:
+                        for r in range(2):
+                            dic["tree.heights"].tensor = trees[r].clone()
+                            alone = float(tt.as_np(g(), "C20:not-a-tensor:gmrf", "GMRF()").reshape(-1)[0])
+                            if abs(alone - float(val3.reshape(-1)[r])) > 1e-9 * max(1.0, abs(alone)):
+                                V.append(tt.viol("C20:gmrf:batched-trees-differ-from-single:" + var, "batch of two trees, member %d: %.12g, the same tree on its own %.12g" % (r, float(val3.reshape(-1)[r]), alone), row=r, **detail))
+                                break
         nontrivial = dim >= 3
     elif kind == "gmrf-integrated":
         C["variants"] = [var]
